@@ -1,0 +1,78 @@
+// Copyright 2026 Alexander Alten (novatechflow), NovaTechflow (novatechflow.com).
+// This project is supported and financed by Scalytics, Inc. (www.scalytics.io).
+//
+// Licensed under the Apache License, Version 2.0 (the "License");
+// you may not use this file except in compliance with the License.
+// You may obtain a copy of the License at
+//
+//     http://www.apache.org/licenses/LICENSE-2.0
+//
+// Unless required by applicable law or agreed to in writing, software
+// distributed under the License is distributed on an "AS IS" BASIS,
+// WITHOUT WARRANTIES OR CONDITIONS OF ANY KIND, either express or implied.
+// See the License for the specific language governing permissions and
+// limitations under the License.
+
+package idoc
+
+import (
+	"fmt"
+	"io"
+	"strings"
+	"unicode/utf8"
+)
+
+// windows1252High maps the bytes 0x80-0x9F of windows-1252; every other byte
+// of that code page equals the ISO-8859-1 code point.
+var windows1252High = [32]rune{
+	0x20AC, 0x0081, 0x201A, 0x0192, 0x201E, 0x2026, 0x2020, 0x2021,
+	0x02C6, 0x2030, 0x0160, 0x2039, 0x0152, 0x008D, 0x017D, 0x008F,
+	0x0090, 0x2018, 0x2019, 0x201C, 0x201D, 0x2022, 0x2013, 0x2014,
+	0x02DC, 0x2122, 0x0161, 0x203A, 0x0153, 0x009D, 0x017E, 0x0178,
+}
+
+// charsetReader is the xml.Decoder CharsetReader for the single-byte
+// encodings non-Unicode SAP systems and file ports declare in IDoc XML.
+func charsetReader(label string, input io.Reader) (io.Reader, error) {
+	switch strings.ToLower(strings.TrimSpace(label)) {
+	case "utf-8", "utf8", "us-ascii", "ascii":
+		return input, nil
+	case "iso-8859-1", "iso_8859-1", "latin1", "latin-1", "l1":
+		return &singleByteReader{src: input}, nil
+	case "windows-1252", "cp1252":
+		return &singleByteReader{src: input, high: &windows1252High}, nil
+	}
+	return nil, fmt.Errorf("unsupported encoding %q", label)
+}
+
+// singleByteReader transcodes a single-byte encoding to UTF-8. Bytes decode
+// to the code point of the same value, except 0x80-0x9F when high is set.
+type singleByteReader struct {
+	src     io.Reader
+	high    *[32]rune
+	err     error
+	pending []byte
+	in      [512]byte
+	out     [3 * 512]byte
+}
+
+func (r *singleByteReader) Read(p []byte) (int, error) {
+	for len(r.pending) == 0 {
+		if r.err != nil {
+			return 0, r.err
+		}
+		var n int
+		n, r.err = r.src.Read(r.in[:])
+		r.pending = r.out[:0]
+		for _, b := range r.in[:n] {
+			c := rune(b)
+			if r.high != nil && b >= 0x80 && b <= 0x9F {
+				c = r.high[b-0x80]
+			}
+			r.pending = utf8.AppendRune(r.pending, c)
+		}
+	}
+	n := copy(p, r.pending)
+	r.pending = r.pending[n:]
+	return n, nil
+}
